@@ -30,7 +30,7 @@ def _classify(kwargs, rp):
 def conditions(tier):
     import h_c04 as H
     quick = tier == 'quick'
-    T = 120 if quick else 1200
+    T = 200 if quick else 1200
     conds = []
     nf, nr = len(H.FIRST), len(H.RET)
     for np_ in range(len(H.NAME_PREFIX)):
